@@ -182,6 +182,25 @@ Lemma ref_discipline_buddy_ok :
   forallb (fun m => forallb (balanced m) (paths m)) methods_buddy = true.
 Proof. by vm_compute. Qed.
 
+(** raising paths included (strict discipline), up to the named exceptions *)
+Lemma raise_paths_cudd_ok :
+  raise_paths_ok [("BDD._load_dddmp", 1); ("_test_incref", 1); ("_test_decref", 1)] methods_cudd = true.
+Proof. by vm_compute. Qed.
+Lemma raise_paths_cudd_zdd_ok :
+  raise_paths_ok [("_c_compose", 3); ("_compose_root", 2); ("_compose", 5)] methods_cudd_zdd = true.
+Proof. by vm_compute. Qed.
+Lemma raise_paths_sylvan_ok : raise_paths_ok [] methods_sylvan = true.
+Proof. by vm_compute. Qed.
+Lemma raise_paths_buddy_ok : raise_paths_ok [] methods_buddy = true.
+Proof. by vm_compute. Qed.
+(** the exceptions are tight: with one path fewer allowed the statement is false *)
+Lemma raise_paths_exceptions_needed :
+  raise_paths_ok [("_test_incref", 1); ("_test_decref", 1)] methods_cudd = false ∧
+  raise_paths_ok [("BDD._load_dddmp", 1); ("_test_incref", 0); ("_test_decref", 1)] methods_cudd = false ∧
+  raise_paths_ok [("_c_compose", 2); ("_compose_root", 2); ("_compose", 5)] methods_cudd_zdd = false ∧
+  raise_paths_ok [("_c_compose", 3); ("_compose_root", 2); ("_compose", 4)] methods_cudd_zdd = false.
+Proof. by vm_compute. Qed.
+
 Lemma handles_ok :
   handle_ok handle_cudd && handle_ok handle_cudd_zdd &&
   handle_ok handle_sylvan && handle_ok handle_buddy = true.
